@@ -45,6 +45,9 @@ pub struct SimConfig {
     pub epoch_micros: u64,
     pub auto_tick_micros: u64,
     pub pipe_capacity: usize,
+    /// writes to the server's data files are handed over and completed later by a task the scheduler owns
+    /// (what tokio's `File` does); reads through other handles can run in between
+    pub defer_writes: bool,
 }
 
 impl SimConfig {
@@ -58,6 +61,7 @@ impl SimConfig {
             epoch_micros: 1_767_225_600_000_000,
             auto_tick_micros: 1,
             pipe_capacity: 4096,
+            defer_writes: false,
         }
     }
 }
@@ -191,6 +195,7 @@ pub struct SimInner {
     pub fs: RefCell<FsState>,
     listener: RefCell<Option<Listener>>,
     http_handler: RefCell<Option<HttpHandler>>,
+    pub deferred_writes: Cell<u64>,
     next_port: Cell<u16>,
     pub panics: RefCell<Vec<String>>,
     pub connections: Cell<u64>,
@@ -266,6 +271,17 @@ impl SimRuntime for SimInner {
         let ticks = self.ticks.get() + self.cfg.auto_tick_micros;
         self.ticks.set(ticks);
         (self.cfg.epoch_micros + elapsed + ticks).saturating_add_signed(self.skew_micros.get())
+    }
+
+    fn fs_defer_writes(&self, path: &Path) -> bool {
+        if !self.cfg.defer_writes || self.dead.get() {
+            return false;
+        }
+        let deferred = !matches!(classify(path), PathClass::Other);
+        if deferred {
+            self.deferred_writes.set(self.deferred_writes.get() + 1);
+        }
+        deferred
     }
 
     fn fs_fault(&self, op: FsOp, path: &Path, len: usize) -> FsFault {
@@ -478,6 +494,7 @@ impl Sim {
                 }),
                 listener: RefCell::new(None),
                 http_handler: RefCell::new(None),
+                deferred_writes: Cell::new(0),
                 next_port: Cell::new(40000),
                 panics: RefCell::new(Vec::new()),
                 connections: Cell::new(0),
